@@ -832,6 +832,10 @@ struct Interp {
         break;
       }
       case NOP: break;
+      case HOLD:
+        // a long-lived holder: others get many turns (retry / back-off budgets of waiters run out)
+        for (uint32_t k = 0; k < op.arg && k < 400; k++) vsched::harness_yield();
+        break;
       default:
         if constexpr (IsOpt<L>::value) {
           exec_opt(op);
